@@ -152,5 +152,14 @@ CLAIMS = {
         "note": TRUST + "argparse and README prose beyond these clauses; clause (d) is partly idiom-pinned (.upper() / .capitalize()), stated in DESIGN.md",
         "technique": "may/must event (dominance) analysis + value-flow decision-tree extraction + inventory (static analysis)",
     },
+    "C16": {
+        "text": "Def-use chains tie each of the 7 setters to the id it records, the _PROPERTY_MAP entry that reads the very field it stored "
+                "and the public getter; must/may event analysis of apply shows the write is sent exactly once per non-empty change set and "
+                "the set is cleared after props was computed on every sending completion; PropertyId.encode/decode layouts match the vendor "
+                "value encodings (ids and lengths re-read from the Lua); the response parser advances 4+len per record; breeze exclusivity "
+                "and BREEZE_CONTROL precedence from the gated terms.",
+        "note": TRUST + "vendor value encodings (Lua lines cited); read-back equality through a live device is not decided",
+        "technique": "def-use chain + must/may event analysis + layout domain + cursor-advance analysis (static analysis)",
+    },
 }
 NOT_APPLICABLE = {}
